@@ -196,9 +196,12 @@ def fromString : DType F → Text → Res F
   | .enum ms, t =>
     match t with
     | .bare s =>
-      match enumByName ms (lib.strip s) with
+      match enumByName ms s with                    -- the name as given (a member name may start or end with blanks)
       | some (n, v) => .ok (.enum n v)
-      | none => .error .wrongType                   -- falls back to `literal_eval(text)`: unmodelled, almost always refused
+      | none =>
+        match enumByName ms (lib.strip s) with
+        | some (n, v) => .ok (.enum n v)
+        | none => .error .wrongType                 -- falls back to `literal_eval(text)`: unmodelled, almost always refused
     | .syn s =>
       match literalEval lib s with
       | some v => call (.enum ms) v
